@@ -121,10 +121,26 @@ impl<'a> RunWithPool<'a> for BNode {
     }
 }
 
+std::thread_local! {
+    /// build the nodes with the library's `par!` / `seq!` macros instead of `new` / `with`
+    pub static VIA_MACROS: std::cell::Cell<bool> = const { std::cell::Cell::new(false) };
+}
+
 fn make_par(mut c: Vec<BNode>) -> BNode {
     let n = c.len();
     let mut it = c.drain(..);
     let mut nx = || it.next().unwrap();
+    if VIA_MACROS.with(|v| v.get()) {
+        return match n {
+            1 => BNode(Box::new(shred::par![nx(),])),
+            2 => BNode(Box::new(shred::par![nx(), nx(),])),
+            3 => BNode(Box::new(shred::par![nx(), nx(), nx(),])),
+            4 => BNode(Box::new(shred::par![nx(), nx(), nx(), nx(),])),
+            5 => BNode(Box::new(shred::par![nx(), nx(), nx(), nx(), nx(),])),
+            6 => BNode(Box::new(shred::par![nx(), nx(), nx(), nx(), nx(), nx(),])),
+            n => panic!("harness: par fan-out {} not supported", n),
+        };
+    }
     match n {
         1 => BNode(Box::new(Par::new(nx()))),
         2 => BNode(Box::new(Par::new(nx()).with(nx()))),
@@ -140,6 +156,17 @@ fn make_seq(mut c: Vec<BNode>) -> BNode {
     let n = c.len();
     let mut it = c.drain(..);
     let mut nx = || it.next().unwrap();
+    if VIA_MACROS.with(|v| v.get()) {
+        return match n {
+            1 => BNode(Box::new(shred::seq![nx(),])),
+            2 => BNode(Box::new(shred::seq![nx(), nx(),])),
+            3 => BNode(Box::new(shred::seq![nx(), nx(), nx(),])),
+            4 => BNode(Box::new(shred::seq![nx(), nx(), nx(), nx(),])),
+            5 => BNode(Box::new(shred::seq![nx(), nx(), nx(), nx(), nx(),])),
+            6 => BNode(Box::new(shred::seq![nx(), nx(), nx(), nx(), nx(), nx(),])),
+            n => panic!("harness: seq fan-out {} not supported", n),
+        };
+    }
     match n {
         1 => BNode(Box::new(Seq::new(nx()))),
         2 => BNode(Box::new(Seq::new(nx()).with(nx()))),
@@ -764,6 +791,48 @@ fn ztriple<A: ZLeaf, B: ZLeaf, C: ZLeaf>(col: &mut Collector) -> (u64, u64) {
     panics += r.is_err() as u64;
     report("par[c, seq[a, b]]", conf(u, C::ACC), r.is_err(), col);
     (4, panics)
+}
+
+/// The `par!` / `seq!` macros build the same tree as `new` / `with`: every tree is built both ways and run inline
+/// (sequentially, deterministic); builds that panic, reported access, setup and run counters and the event order agree.
+pub fn macro_differential(ts: &[Tree], col: &mut Collector) -> u64 {
+    let was = rayon::verif::controlled();
+    rayon::verif::set_controlled(false);
+    let mut cases = 0;
+    for t in ts {
+        cases += 1;
+        VIA_MACROS.with(|v| v.set(false));
+        let a = run_tree(t, 0, 2);
+        VIA_MACROS.with(|v| v.set(true));
+        let b = run_tree(t, 0, 2);
+        VIA_MACROS.with(|v| v.set(false));
+        let key = |o: &TreeOut| {
+            let (mut r, mut w) = (o.root_reads.clone(), o.root_writes.clone());
+            r.sort();
+            r.dedup();
+            w.sort();
+            w.dedup();
+            (o.build_panic.is_some(), r, w, o.runs.clone(), o.setups.clone(), o.setups2.clone(), o.result.is_some(), o.values.clone(), o.log.iter().map(|e| (e.kind as u8, e.sys, e.dispatch)).collect::<Vec<_>>())
+        };
+        if key(&a) != key(&b) {
+            let what = if a.build_panic.is_some() != b.build_panic.is_some() {
+                format!("building panics: with/new {:?}, macros {:?}", a.build_panic, b.build_panic)
+            } else if a.runs != b.runs {
+                format!("run counters: with/new {:?}, macros {:?}", a.runs, b.runs)
+            } else {
+                "reported access, setup counters, final world or event order differ".to_string()
+            };
+            col.add(Finding {
+                prop: "C16".into(),
+                sig: "macro-built-tree-differs".into(),
+                msg: format!("tree {} built with par! / seq! behaves differently from the same tree built with new / with: {}", t.short(), what),
+                replay: json!({"kind":"tree-macro","tree":t.to_json()}),
+                size: t.leaves(),
+            });
+        }
+    }
+    rayon::verif::set_controlled(was);
+    cases
 }
 
 /// Leaves whose data types are DISTINCT types with the SAME `type_name` (items declared in two blocks of one
